@@ -157,7 +157,13 @@ def _entry_points(opt):
     import graphtage
     from graphtage import json as gj, pydiff
     from graphtage.builder import BasicBuilder
+    extra = {}
+    if not opt:
+        # the documented default: options may be omitted
+        extra = {'json.build_tree(no options)': lambda o: gj.build_tree(o),
+                 'pydiff.build_tree(no options)': lambda o: pydiff.build_tree(o)}
     return {
+        **extra,
         'json.build_tree': lambda o: gj.build_tree(o, graphtage.BuildOptions(**opt)),
         'BasicBuilder.build_tree': lambda o: BasicBuilder(graphtage.BuildOptions(**opt)).build_tree(o),
         'pydiff.build_tree': lambda o: pydiff.build_tree(o, graphtage.BuildOptions(**opt)),
@@ -179,19 +185,20 @@ def _acyclic_inner(job):
     has_set = 'multiset' in repr(expected)
     results = {}
     for name, fn in _entry_points(opt).items():
-        if name == 'json.build_tree' and has_set:
+        cname = name.split('(')[0]
+        if name.startswith('json.build_tree') and has_set:
             continue        # json.build_tree documents no support for sets
         try:
             t = fn(obj)
             got = norm_out(t.to_obj())
             results[name] = got
             if got != expected:
-                fails.append({'what': f"{name}({obj!r}).to_obj() == {t.to_obj()!r}, expected {expected!r}", 'class': f'c18-roundtrip:{name}'})
+                fails.append({'what': f"{name}({obj!r}).to_obj() == {t.to_obj()!r}, expected {expected!r}", 'class': f'c18-roundtrip:{cname}'})
             c = t.copy()
             if not (c == t) or c is t:
-                fails.append({'what': f"copy() of the tree built by {name} from {obj!r} is not an equal, distinct tree", 'class': f'c18-copy:{name}'})
+                fails.append({'what': f"copy() of the tree built by {name} from {obj!r} is not an equal, distinct tree", 'class': f'c18-copy:{cname}'})
         except Exception as ex:
-            cls = f'c18-exception:{name}:{type(ex).__name__}'
+            cls = f'c18-exception:{cname}:{type(ex).__name__}'
             if isinstance(ex, TypeError) and 'unhashable' in str(ex) and has_set:
                 cls = 'c18-set-with-container-member'
             fails.append({'what': f"{name}({obj!r}) raised {type(ex).__name__}: {ex}", 'class': cls})
@@ -210,7 +217,8 @@ def _cyclic_job(job):
     desc, obj = cyclic_graphs()[idx]
     fails = []
     for name, fn in _entry_points(opt).items():
-        if desc.endswith('[custom]') and name != 'pydiff.build_tree':
+        cname = name.split('(')[0]
+        if desc.endswith('[custom]') and cname != 'pydiff.build_tree':
             continue        # only pydiff.build_tree documents support for instances of arbitrary classes
         try:
             t = with_timeout(fn, obj, STEP_TIMEOUT)
@@ -218,21 +226,21 @@ def _cyclic_job(job):
                 from graphtage.builder import CyclicReference
                 if not any(isinstance(n, CyclicReference) for n in t.dfs()):
                     fails.append({'what': f"{name} on cyclic input ({desc}) returned a tree without a cycle placeholder",
-                                  'class': f'c18-cycle-no-placeholder:{name}'})
+                                  'class': f'c18-cycle-no-placeholder:{cname}'})
             else:
                 fails.append({'what': f"{name} on cyclic input ({desc}) returned normally although cycles are not ignored",
-                              'class': f'c18-cycle-accepted:{name}'})
+                              'class': f'c18-cycle-accepted:{cname}'})
         except JobTimeout:
-            fails.append({'what': f"{name} on cyclic input ({desc}) did not terminate within {STEP_TIMEOUT}s", 'class': f'c18-cycle-hang:{name}'})
+            fails.append({'what': f"{name} on cyclic input ({desc}) did not terminate within {STEP_TIMEOUT}s", 'class': f'c18-cycle-hang:{cname}'})
         except ValueError:
             if opt.get('ignore_cycles'):
                 fails.append({'what': f"{name} on cyclic input ({desc}) raised ValueError although cycles are to be ignored",
-                              'class': f'c18-cycle-error-when-ignored:{name}'})
+                              'class': f'c18-cycle-error-when-ignored:{cname}'})
         except RecursionError:
             fails.append({'what': f"{name} on cyclic input ({desc}) ended in RecursionError, not a cycle error / placeholder",
-                          'class': f'c18-cycle-recursionerror:{name}'})
+                          'class': f'c18-cycle-recursionerror:{cname}'})
         except Exception as ex:
-            fails.append({'what': f"{name} on cyclic input ({desc}) raised {type(ex).__name__}: {ex}", 'class': f'c18-cycle-exception:{name}:{type(ex).__name__}'})
+            fails.append({'what': f"{name} on cyclic input ({desc}) raised {type(ex).__name__}: {ex}", 'class': f'c18-cycle-exception:{cname}:{type(ex).__name__}'})
     for f in fails:
         f['what'] += f" opt={opt}"
         f['input'] = {'cyclic': desc, 'opt': opt}
